@@ -33,22 +33,32 @@ static void judge_c02(const glue::Files &files, const std::string &main, Result 
   r.hash = glue::files_hash(files, main);
   // Pre-screen: compile() always grants 1024 macro rewrites, each of which rescans the whole stream, so a
   // self-reproducing macro with a growing body costs minutes (bounded, but outside what a check can
-  // afford per case). The expansion is first run with a budget of 48; if it is still changing and the
+  // afford per case). The expansion is first run with budgets 3..48; if it is still changing and the
   // projected stream exceeds 1500 tokens the full compile is skipped and counted (C11 covers divergence
   // with explicit budgets). scan/extract/apply run under the same sanitizers, so they are still exercised.
   {
     glue::Files f2 = files;
     Theo::ScanResult sr = Theo::scan(f2, main);
     Theo::MacroExtractionResult mer = Theo::extract_macros(sr.toks);
-    Theo::MacroApplicationResult mar = Theo::apply_macros(mer.tokens, mer.macros, 48);
+    // budgets grow geometrically and the probe stops as soon as the stream is large: a slot-duplicating
+    // self-reproducing body grows the stream exponentially in the number of passes (known finding F11)
     bool still = false;
-    for (auto &e : mar.errors)
-      if (e.t == Theo::ParseError::MACRO_APPLY_REACHED_MAX_PASSES) still = true;
+    size_t size = mer.tokens.size();
+    unsigned used = 0;
+    for (unsigned b : {3u, 6u, 12u, 24u, 48u}) {
+      Theo::MacroApplicationResult mar = Theo::apply_macros(mer.tokens, mer.macros, b);
+      still = false;
+      for (auto &e : mar.errors)
+        if (e.t == Theo::ParseError::MACRO_APPLY_REACHED_MAX_PASSES) still = true;
+      size = mar.transformed_sequence.size();
+      used = b;
+      if (!still || size > 1500) break;
+    }
     if (still) {
-      double growth = ((double)mar.transformed_sequence.size() - (double)mer.tokens.size()) / 48.0;
+      double growth = ((double)size - (double)mer.tokens.size()) / (double)used;
       double projected = (double)mer.tokens.size() + 1024.0 * std::max(0.0, growth);
-      r.cls("expansion>=48-rewrites");
-      if (projected > 1500) {
+      r.cls("expansion-still-running-at-probe-budget");
+      if (size > 1500 || projected > 1500) {
         r.discard = true;
         r.cls("skipped:divergent-growing-expansion");
         return;
@@ -324,6 +334,27 @@ static void enum_c02(Runner &run, int shard, int nshards, const std::string &tie
 static void json_c02(const J &c, Result &r) {
   glue::Files files;
   std::string main;
+  if (c.has("probe")) {
+    // deterministic probes for recorded findings: the input is generated here, compile() must return normally
+    const std::string &kind = c.at("probe").s;
+    long n = c.has("n") ? (long)c.at("n").i() : 100000;
+    std::string src;
+    if (kind == "deep-statement-sequence") {
+      for (long i = 0; i < n; i++) src += "x0 := 1;\n";
+      src += "x0 := 2";
+    } else if (kind == "deep-macro-definition") {
+      src = "DEFINE A";
+      for (long i = 0; i < n; i++) src += " x";
+      src += " AS y END DEFINE x0 := 1";
+    } else if (kind == "macro-bomb") {
+      src = "DEFINE BOMB <V> ! AS BOMB RUN f WITH $0 , $0 END ! END DEFINE\nx0 := 1; BOMB 1 !";
+    }
+    files["m"] = src;
+    Theo::CodegenResult cr = Theo::compile(files, "m");
+    r.sample = c;
+    if (cr.generated_correctly != cr.errors.empty()) r.fail("total:flag-error-mismatch", "probe: flag and error list disagree");
+    return;
+  }
   glue::files_from_json(c, files, main);
   judge_c02(files, main, r);
 }
